@@ -2,8 +2,8 @@
 
 * `variants(spec, n, seed)`: n scenarios of the kind of `spec` - the scenario itself, and copies with another population (more /
   fewer messages in new and cur, with and without an X-Label header, folded headers, flags in the name, one message of several
-  stdio buffers), a destination that already holds the name maildir_genname tries first (the EEXIST retry), the clutter of a maildir
-  in use; stdin kinds: other message sizes (one byte below / at / above the read buffer, several buffers), with and without X-Label.
+  stdio buffers, messages of exactly one stdio buffer +-1), a destination that already holds the name maildir_genname tries first
+  (the EEXIST retry); stdin kinds: other message sizes (one byte below / at / above the read buffer, several buffers), with and without X-Label.
 * `Pool`: jobs run in forked worker processes (the sweeps are Python-heavy between two runs of the binary: threads serialise on the
   interpreter lock), each with its own sandbox names and its own `world.WorldCheck`; results come back as plain data.
 """
@@ -139,9 +139,13 @@ def variants(spec, n, seed):
             tree['src/cur/%d.host:2,S' % i] = _extra_msg(i, rng)
             j = next(ids)
             tree['src/new/%d.host' % j] = _extra_msg(j, rng, big=True)
+        elif shape == 5:
+            # messages whose size is around the stdio buffer (4096): the header block + body end one byte below / at / above it
+            for size in (4095, 4096, 4097):
+                i = next(ids)
+                head = len(ws.msg(i, body=b''))
+                tree['src/new/%d.host' % i] = ws.msg(i, body=ws.text_body(size - head, tag=b'b%d' % i))
         sp = ws.Spec(name, spec.conf, spec.pats, tree=tree, devmap=spec.devmap, stdin=spec.stdin, args=spec.args, kind=spec.kind, env=spec.env,
                      stdin_file=spec.stdin_file)
-        if shape == 5:
-            sp = ws.with_clutter(sp, name=name)
         out.append(sp)
     return out
